@@ -604,6 +604,18 @@ class SqlImpl(TableImpl):
             # Use left column names
             sqa_expr = {uid: sqa.label(sqa_expr[uid].name, table.columns[sqa_expr[uid].name]) for uid in left_select}
 
+            # The result columns of a compound SELECT get their SQL type from the left
+            # operand. If that is an untyped NULL, take the type of the union column.
+            from pydiverse.transform._internal.pipe.cache import Cache
+
+            union_cache = Cache.from_ast(nd)
+            for uid in left_select:
+                dtype = types.without_const(union_cache.cols[uid].dtype())
+                if isinstance(sqa_expr[uid].type, sqa.types.NullType) and dtype != NullType():
+                    sqa_expr[uid] = sqa.label(
+                        sqa_expr[uid].name, sqa.type_coerce(table.columns[sqa_expr[uid].name], cls.sqa_type(dtype))
+                    )
+
             # Create a new query with the union result
             # Only keep the select columns, reset all other query state
             query = Query(select=left_select)
